@@ -138,21 +138,60 @@ def validate_traces(run, module, consts, invariants, trace_files, label, nproc=8
     return lines
 
 
-def instr_conformance(run, profiles, n, seed, label, claims, max_events=4000):
+def model_check_vmdata(run, dmax):
+    """VmData.tla as a closed model: straight-line programs over the integer fragment; every instruction has exactly one admitted
+    effect there and a global reads back what was stored"""
+    d = workdir("vmdata")
+    cfg = os.path.join(d, "VmData.cfg")
+    open(cfg, "w").write("CONSTANTS DMax = %d\nSPECIFICATION DSpec\nINVARIANTS Deterministic GlobalsKnown\nCHECK_DEADLOCK FALSE\n" % dmax)
+    r = tlc(os.path.join(SPEC, "VmData.tla"), cfg, workers=4, timeout=1200, name="VmData-MC")
+    require_tlc_ok(r, "VmData")
+    run.add_tlc(r)
+    return r
+
+
+def split_instr_file(f, limit):
+    """split an instruction trace at program boundaries ("Prog" records) into files of about `limit` records"""
+    parts, cur, k = [], [], 0
+    for ln in open(f):
+        if ln.startswith('{"e":"Prog"') or '"e":"Prog"' in ln[:40]:
+            if len(cur) >= limit:
+                parts.append(cur)
+                cur = []
+        cur.append(ln)
+    if cur:
+        parts.append(cur)
+    out = []
+    for i, c in enumerate(parts):
+        pf = "%s.part%d.ndjson" % (f[:-7], i)
+        open(pf, "w").write("".join(c))
+        out.append(pf)
+    return out
+
+
+def instr_conformance(run, profiles, n, seed, label, claims, max_events=4000, values=False):
     """Instruction-level conformance (VmInstr.tla): every executed instruction of generated programs is validated against the
     per-instruction model of instruction pointer, stack height and call frames.  `claims(m)` says whether a rejected record
     contradicts the property of the calling check; other rejections are deviations of the implementation from the model
-    that no listed property forbids: they are printed and recorded, not reported as violations."""
+    that no listed property forbids: they are printed and recorded, not reported as violations.
+    values=True: the records also carry the contents of the value stack (hook Event::Stack) and every instruction is validated
+    against VmData.tla as well (what the instruction does to the values on the stack and to the globals)."""
     d = workdir(label)
     files = []
 
     def job(i, prof):
         def go():
             f = os.path.join(d, "%s.ndjson" % prof)
-            drive_trace(["instr-drive", "--profile", prof, "--seed", seed * 100 + i, "--n", n, "--max-events", max_events], f, n, timeout=1800)
+            drive_trace(["instr-drive", "--profile", prof, "--seed", seed * 100 + i, "--n", n, "--max-events", max_events, "--values", 1 if values else 0], f, n, timeout=1800)
             return f
         return go
     files = parallel([job(i, p) for i, p in enumerate(profiles)], nproc=4)
+    if values:
+        # value records are large: one TLC process per ~4000 records
+        parts = []
+        for f in files:
+            parts += split_instr_file(f, 4000)
+        files = parts
     cfg = os.path.join(d, label + ".cfg")
     open(cfg, "w").write("CONSTANTS MaxH = 4\nSPECIFICATION TSpec\nINVARIANTS Done\nCHECK_DEADLOCK FALSE\n")
     results = parallel([(lambda tf=tf, i=i: tlc_trace(os.path.join(SPEC, "VmInstrTrace.tla"), cfg, tf, name="%s-%d" % (label, i), timeout=2400))
@@ -180,7 +219,7 @@ def instr_conformance(run, profiles, n, seed, label, claims, max_events=4000):
                     print("MODEL-DEVIATION (not a violation of %s) %s: %s" % (run.pid, os.path.basename(tf), json.dumps(m)[:300]))
     run.traces += len(files)
     run.notes.setdefault("instruction_level_conformance", []).append(dict(
-        batch=label, profiles=profiles, instruction_events=events, opcodes_executed=ops, rejected_and_claimed=claimed,
+        batch=label, profiles=profiles, instruction_events=events, opcodes_executed=ops, rejected_and_claimed=claimed, stack_contents_validated=values,
         deviations_from_model_not_claimed=deviations))
     if len(ops) < 30:
         run.thin_corpus("instruction-level corpus executes only %d of 47 opcodes" % len(ops))
